@@ -1,5 +1,7 @@
 SPECIFICATION FairSpec
 CONSTANTS RecvDeadline = FALSE
+          ArtimEveryLoop = TRUE
+          ServerHandshakeDeadline = FALSE
           Dribbles = 2
 INVARIANT TypeOK
 PROPERTY C08_Ends
